@@ -30,6 +30,8 @@ TOLERANCES = {"grid_states/shared_times/ys0": "bit-identical", "interior_interpo
 @st.composite
 def _case(draw, tier):
     spec, combo = draw(solve.spec_and_combo(dtypes=("float64", "float32")))
+    if spec["noise_type"] == "diagonal":
+        spec = dict(spec, g_alias=draw(st.sampled_from([False, False, False, False, True])))   # g returns its input tensor
     # a diffusion that returns one stored tensor on every call: the solver must treat what f and g return as read-only
     spec["gstored"] = draw(st.sampled_from([None, None, None, True]))
     # a drift that returns its input tensor itself (dY = Y dt + ...): recorded states must not be overwritten
@@ -198,7 +200,9 @@ def run_case(case):
             checks += 1
             scale = max(1.0, float(state.abs().max()))
             e = float((ys_grid[k + 1] - state).abs().max()) / scale
-            if not e <= 16 * eps:
+            # an output at a grid time IS the grid state: the value the step returned, not a floating-point re-combination
+            # of it with the previous state
+            if not torch.equal(ys_grid[k + 1], state):
                 return fail("grid_state_vs_independent_driver",
                             f"state at grid time {grid_f[k + 1]} (step {k + 1} of {len(grid) - 1}) differs from the state "
                             f"obtained by stepping the solver directly over the grid: rel {e:.3e}")
